@@ -335,6 +335,49 @@ func scenShutdown(e *Env, args []string, r *rand.Rand) {
 		go func() { time.Sleep(10 * time.Millisecond); release() }()
 		stop(p)
 		release()
+	case "request-window":
+		// the stop lands after a state function has returned its next state and before the peer manager
+		// accepts the transition request (held at the schedule point in front of the request)
+		p := e.addPeer(1, PeerOpts{LocalAS: localAS, RemoteAS: remoteAS, Hold: 90, Passive: dir == "in"})
+		e.serve()
+		st := m["st"]
+		c := p.bring(dir, st, 90, remoteID)
+		if c != nil {
+			release := e.hold("fsm.request")
+			if st == "openSent" {
+				c.send(wire.Open(remoteAS, 90, remoteID, tag(c)))
+			} else {
+				c.send(wire.Keepalive())
+			}
+			if e.tr.wait(0, stepWait, func(ev Event) bool { return ev.Ev == "pt.reached" && ev.Args[0] == "fsm.request" }) < 0 {
+				e.fail("fsm.request not reached")
+			}
+			go func() { time.Sleep(10 * time.Millisecond); release() }()
+			stop(p)
+			release()
+		}
+	case "second-inbound":
+		// a second inbound connection from the same peer arrives while the first is in progress
+		p := e.addPeer(1, PeerOpts{LocalAS: localAS, RemoteAS: remoteAS, Hold: 90, Passive: true})
+		e.serve()
+		a := p.bring("in", m["st"], 90, remoteID)
+		b := p.remote.dial()
+		if b != nil {
+			b.waitMsgs(1, 100*time.Millisecond)
+		}
+		_ = a
+		stop(p)
+	case "in-callback":
+		// the stop arrives while OnOpenMessage is running
+		p := e.addPeer(1, PeerOpts{LocalAS: localAS, RemoteAS: remoteAS, Hold: 90, Passive: dir == "in"})
+		p.plugin.OpenDelay = 30 * time.Millisecond
+		e.serve()
+		c := p.bring(dir, "openSent", 90, remoteID)
+		if c != nil {
+			c.send(wire.Open(remoteAS, 90, remoteID, tag(c)))
+			p.waitEv(0, stepWait, "cb.enter", "OnOpenMessage")
+			stop(p)
+		}
 	case "idle":
 		p := e.addPeer(1, PeerOpts{LocalAS: localAS, RemoteAS: remoteAS, Hold: 90, NoListen: true, IdleHold: 2 * time.Second})
 		e.serve()
@@ -543,6 +586,33 @@ func scenDamping(e *Env, args []string, r *rand.Rand) {
 	e.close()
 }
 
+// damping-both:<how>  — a protocol error on the outbound connection while an inbound FSM has just been
+// created and its first transition has not been served yet (held at the request schedule point)
+func scenDampingBoth(e *Env, args []string, r *rand.Rand) {
+	p := e.addPeer(1, PeerOpts{LocalAS: localAS, RemoteAS: remoteAS, Hold: 90, IdleHold: 100 * time.Millisecond})
+	e.serve()
+	out := p.bring("out", "openSent", 90, remoteID)
+	if out == nil {
+		e.close()
+		return
+	}
+	release := e.hold("fsm.request")
+	in := p.remote.dial()
+	if e.tr.wait(0, stepWait, func(ev Event) bool { return ev.Ev == "pt.reached" && ev.Args[0] == "fsm.request" }) < 0 {
+		e.fail("fsm.request not reached")
+	}
+	out.send(stimulus(args[0], r))
+	out.waitEnd(stepWait)
+	time.Sleep(10 * time.Millisecond)
+	release()
+	e.tr.log(p.key, "fault-done")
+	if in != nil {
+		in.waitMsgs(1, 300*time.Millisecond)
+	}
+	time.Sleep(300 * time.Millisecond)
+	e.close()
+}
+
 // ---------------------------------------------------------------- C13: admission
 
 // admission:<case>
@@ -624,6 +694,7 @@ func init() {
 	families["reconnect"] = scenReconnect
 	families["inbound-resume"] = scenInboundResume
 	families["damping"] = scenDamping
+	families["damping-both"] = scenDampingBoth
 	families["admission"] = scenAdmission
 
 	scenarioLists["C04"] = func(tier string, r *rand.Rand) []string {
@@ -730,6 +801,15 @@ func init() {
 			for rep := 0; rep < n; rep++ {
 				out = append(out, fmt.Sprintf("shutdown:%s:collision:oc=%d:i=%d", api, rep%2, rep))
 			}
+			for _, dir := range []string{"out", "in"} {
+				for _, st := range []string{"openSent", "openConfirm"} {
+					out = append(out, fmt.Sprintf("shutdown:%s:request-window:dir=%s:st=%s", api, dir, st))
+				}
+				out = append(out, fmt.Sprintf("shutdown:%s:in-callback:dir=%s", api, dir))
+			}
+			for _, st := range []string{"openSent", "openConfirm", "established"} {
+				out = append(out, fmt.Sprintf("shutdown:%s:second-inbound:st=%s", api, st))
+			}
 		}
 		return out
 	}
@@ -780,6 +860,7 @@ func init() {
 				}
 			}
 		}
+		out = append(out, "damping-both:ka", "damping-both:badmarker", "damping-both:notif-other")
 		return out
 	}
 	scenarioLists["C13"] = func(tier string, r *rand.Rand) []string {
